@@ -1,4 +1,4 @@
-(** C14 — no handler panics: not on any answer a store can give (a message without error, or no message with an error), not on any request against the abstract store, not anywhere in a history of deliveries, requests and client calls *)
+(** C14 — (the content is conjunct 1 together with "the stores only give well-formed answers", C07 / fix 0003; conjuncts 2 and 3 then hold by construction of st_get) no handler panics: not on any answer a store can give (a message without error, or no message with an error), not on any request against the abstract store, not anywhere in a history of deliveries, requests and client calls *)
 From IV Require Import Base.Bytes Model.StoreSpec Model.Rest Proofs.Rest.
 Theorem handler_total :
   (forall mb rid num a r, ans_wf a = true -> In r (lookup_resps mb rid num a) -> fst r <> SPanic) /\
